@@ -33,6 +33,9 @@ type c13sScenario struct {
 	AE        string `json:"ae"`
 	Cacheable bool   `json:"cacheable"`
 	UpEnc     string `json:"upEnc"` // "", gzip
+	// Sibling: another server of the same configuration with settings of its own (a filter that
+	// matches octet-stream only, 5kb), listed before or after the server under test
+	Sibling string `json:"sibling,omitempty"` // "", before, after
 }
 
 var (
@@ -51,6 +54,7 @@ func genC13s(t *rapid.T) c13sScenario {
 		AE:        rapid.SampledFrom([]string{"", "gzip", "br", "gzip, br", "deflate", "br, gzip", "pack200-gzip, gzip", "x-br, br", "x-gzip"}).Draw(t, "ae"),
 		Cacheable: rapid.Bool().Draw(t, "cacheable"),
 		UpEnc:     rapid.SampledFrom([]string{"", "", "", "gzip"}).Draw(t, "upEnc"),
+		Sibling:   rapid.SampledFrom([]string{"", "before", "before", "after"}).Draw(t, "sibling"),
 	}
 	thr := map[string]int{"": 1024, "100": 100, "2kb": 2000}[sc.MinLength]
 	sc.Size = rapid.SampledFrom([]int{0, 10, 99, 101, thr - 1, thr + 1, 1023, 1025, 1999, 2001, 5000}).Draw(t, "size")
@@ -72,12 +76,20 @@ func execC13s(sc c13sScenario) *vstat.Outcome {
 	}
 	mk := func(minLength, filter string) *config.PikeConfig {
 		cacheName := fmt.Sprintf("c13s-%d", n)
-		return &config.PikeConfig{
+		cfg := &config.PikeConfig{
 			Caches:    []config.CacheConfig{{Name: cacheName, Size: 1000, HitForPass: "5m"}},
 			Upstreams: []config.UpstreamConfig{{Name: "c13sup", Servers: []config.UpstreamServerConfig{{Addr: c13sUp.URL()}}}},
 			Locations: []config.LocationConfig{{Name: "c13sloc", Upstream: "c13sup"}},
 			Servers:   []config.ServerConfig{{Addr: addrKey, Locations: []string{"c13sloc"}, Cache: cacheName, CompressMinLength: minLength, CompressContentTypeFilter: filter}},
 		}
+		sib := config.ServerConfig{Addr: "127.0.2.250:0", Locations: []string{"c13sloc"}, Cache: cacheName, CompressMinLength: "5kb", CompressContentTypeFilter: "octet-stream"}
+		switch sc.Sibling {
+		case "before":
+			cfg.Servers = []config.ServerConfig{sib, cfg.Servers[0]}
+		case "after":
+			cfg.Servers = append(cfg.Servers, sib)
+		}
+		return cfg
 	}
 	if sc.Updated {
 		// make sure the server exists with different settings first
@@ -190,6 +202,9 @@ func execC13s(sc c13sScenario) *vstat.Outcome {
 	out.Class(map[bool]string{true: "update_path", false: "newserver_path"}[sc.Updated])
 	if sc.MinLength == "" {
 		out.Class("default_min_length")
+	}
+	if sc.Sibling != "" {
+		out.Class("sibling_server_" + sc.Sibling)
 	}
 	return out
 }
